@@ -53,6 +53,10 @@ class TaskError(Exception):
     pass
 
 
+class TaskBaseError(BaseException):
+    """a task may also end with something that is not an Exception (SystemExit, KeyboardInterrupt, GeneratorExit, ...)"""
+
+
 def gen_program(rng, poolkind=None):
     backend, hasprimary = poolkind or rng.choice(KINDS)
     gated = backend == "main_thread_only" and hasprimary
@@ -62,7 +66,7 @@ def gen_program(rng, poolkind=None):
     for _ in range(nsp):
         tasks = []
         for _ in range(rng.choice((1, 2, 3, 5))):
-            kind = rng.choice(("ret", "ret", "raise", "sleep", "block"))
+            kind = rng.choice(("ret", "ret", "raise", "sleep", "block", "raise_base", "raise_sysexit"))
             tasks.append((tid, kind))
             tid += 1
         spawners.append(tasks)
@@ -120,6 +124,10 @@ class Run:
                 return ("value", tid)
             if kind == "raise":
                 raise TaskError(tid)
+            if kind == "raise_base":
+                raise TaskBaseError(tid)
+            if kind == "raise_sysexit":
+                raise SystemExit(tid)
             if kind == "sleep":
                 time.sleep(0.002)
                 return ("value", tid)
@@ -323,10 +331,16 @@ def check_history(res: Result, run: Run, label: str):
                 continue
             try:
                 v = r.get(timeout=2.0)
-                if kinds[tid] == "raise" or v != ("value", tid):
+                if kinds[tid].startswith("raise") or v != ("value", tid):
                     res.violation(mech("reply-value-wrong"), f"{label}: task {tid} ({kinds[tid]}) -> {v!r}")
             except TaskError as e:
                 if kinds[tid] != "raise" or e.args != (tid,):
+                    res.violation(mech("reply-exception-wrong"), f"{label}: task {tid} -> {e!r}")
+            except TaskBaseError as e:
+                if kinds[tid] != "raise_base" or e.args != (tid,):
+                    res.violation(mech("reply-exception-wrong"), f"{label}: task {tid} -> {e!r}")
+            except SystemExit as e:
+                if kinds[tid] != "raise_sysexit" or e.args != (tid,):
                     res.violation(mech("reply-exception-wrong"), f"{label}: task {tid} -> {e!r}")
             except BaseException as e:  # noqa
                 res.violation(mech(f"reply-get-raised-{type(e).__name__}"), f"{label}: task {tid} ({kinds[tid]})")
